@@ -274,10 +274,20 @@ def _is_curved_contour(pts):
     return any(p[2] is None for p in pts)
 
 
-# Editing a glyph that components of another glyph point at leaves those components' cached bounds stale
-# (finding F11, property C03: no eviction on base-glyph data changes), which C17's oracle sees as wrong
-# bounds/margins of the referencing glyph.  Until F11 is repaired such histories are not generated.
-ALLOW_BASE_EDITS = False
+# Editing a glyph that components of another glyph point at used to leave those components' cached bounds stale
+# (finding F11, property C03: no eviction on base-glyph data changes; repaired in /repo 32fccc7), which C17's
+# oracle sees as wrong bounds/margins of the referencing glyph.  Such histories are generated since the repair.
+ALLOW_BASE_EDITS = True
+
+
+def _vo(rng, mode):
+    """vertical origin: mostly unset; the boundary value 0 (falsy, but a set origin) on purpose"""
+    r = rng.random()
+    if r < 0.6:
+        return None
+    if r < 0.72:
+        return 0
+    return _coord(rng, mode)
 
 
 def gen_case(rng, tier):
@@ -311,7 +321,7 @@ def gen_case(rng, tier):
             else:
                 contours.append(gen_contour(rng, mode, ids))
         anchors = [[_coord(rng, mode), _coord(rng, mode)] for _ in range(rng.choice([0, 0, 1, 2]))]
-        vo = _coord(rng, mode) if rng.random() < 0.35 else None
+        vo = _vo(rng, mode)
         ops.append(["newGlyph", name, _coord(rng, mode, 0, 1000), _coord(rng, mode, 0, 1000), vo, contours, [], anchors,
                     [_delta(rng, mode), _delta(rng, mode)]])
         remember(name, contours, [], anchors)
@@ -327,7 +337,7 @@ def gen_case(rng, tier):
             if rng.random() < 0.4:
                 contours.append(gen_contour(rng, mode, ids, "polygon" if line_only else None))
             anchors = [[_coord(rng, mode), _coord(rng, mode)] for _ in range(rng.choice([0, 1]))]
-            vo = _coord(rng, mode) if rng.random() < 0.35 else None
+            vo = _vo(rng, mode)
             ops.append(["newGlyph", name, _coord(rng, mode, 0, 1000), _coord(rng, mode, 0, 1000), vo, contours, comps,
                         anchors, [0, 0]])
             remember(name, contours, comps, anchors)
@@ -421,7 +431,7 @@ def gen_case(rng, tier):
         elif kind < 0.96:
             mut = [rng.choice(["setWidth", "setHeight"]), name, _coord(rng, mode, 0, 1000)]
         else:
-            mut = ["setVO", name, None if rng.random() < 0.3 else _coord(rng, mode)]
+            mut = ["setVO", name, None if rng.random() < 0.3 else (0 if rng.random() < 0.25 else _coord(rng, mode))]
         if mut is None:
             continue
         if frozen and mut[0] in ("cMove", "gMove", "kMove", "cReverse", "cReverse2", "cSetStart", "cSetClockwise",
